@@ -670,4 +670,35 @@ theorem hexDigits_spec (n : Nat) (h : n < 16 ^ 16) :
   exact digitsOf_val 16 (by omega) _ _ (fun d hd => (hexVal_hexDigitChar d hd).1) 16 n h
 
 
+/-! ### the range decorators, restated with `i64` / `u64` -/
+theorem uint64_eq (z : Int) : uint64 z = if u64 z then .ok z else .error .valueError := by
+  unfold uint64
+  by_cases h : u64 z
+  · rw [if_pos h]; exact if_pos h
+  · rw [if_neg h]; exact if_neg h
+theorem int64_eq (z : Int) : int64 z = if i64 z then .ok z else .error .valueError := by
+  unfold int64
+  by_cases h : i64 z
+  · rw [if_pos h]; exact if_pos h
+  · rw [if_neg h]; exact if_neg h
+
+theorem transpiledUint_dec (ds : Text) (h1 : ds ≠ []) (h2 : ds.all isDigit = true) (h3 : ds.length ≤ maxDigits) :
+    transpiledUint ds = uint64 (decVal ds) := by
+  obtain ⟨z1, z2, z3, _, z5, z6⟩ := dropZeros_spec ds h2
+  have e : normIntText ds = dropZeros ds := by simpa [signText] using normIntText_dec false ds h1 h2
+  have p : pyIntLiteral (dropZeros ds) = .ok (decVal (dropZeros ds) : Int) := by
+    simpa [signText, signed] using pyIntLiteral_dec false _ z1 z2 z3 (Nat.le_trans (z5 h1) h3)
+  unfold transpiledUint
+  rw [e, p, z6]
+  rfl
+
+theorem transpiledUint_hex (ds : Text) (h1 : ds ≠ []) (h2 : ds.all isHex = true) :
+    transpiledUint ([48, 120] ++ ds) = uint64 (hexStrVal ds) := by
+  have e : normIntText ([48, 120] ++ ds) = [48, 120] ++ ds := by simpa [signText] using normIntText_hex false ds
+  have p : pyIntLiteral ([48, 120] ++ ds) = .ok (hexStrVal ds : Int) := by
+    simpa [signText, signed] using pyIntLiteral_hex false ds h1 h2
+  unfold transpiledUint
+  rw [e, p]
+  rfl
+
 end Cel.Str
